@@ -362,13 +362,22 @@ def coq_cone(pf):
 
 
 def parse_assumptions(out):
-    """Collect axiom names from `Print Assumptions` output blocks."""
+    """Collect axiom names from `Print Assumptions` output blocks (several blocks may be adjacent)."""
     axioms = set()
-    for block in re.finditer(r"Axioms:\n((?:.+\n?)+?)(?=\n\S|\Z|Closed under)", out):
-        for line in block.group(1).splitlines():
-            m = re.match(r"^([A-Za-z_][\w.']*)\s*:", line)
-            if m:
-                axioms.add(m.group(1))
+    in_ax = False
+    for line in out.splitlines():
+        if line.strip() == "Axioms:":
+            in_ax = True
+            continue
+        if not in_ax:
+            continue
+        if line.startswith((" ", "\t")) or not line.strip():
+            continue            # continuation of a type, or blank
+        m = re.match(r"^([A-Za-z_][\w.']*)\s*:", line)
+        if m:
+            axioms.add(m.group(1))
+        else:
+            in_ax = False
     return axioms
 
 
